@@ -169,6 +169,8 @@ def generate(ctx, module, cfg, n, depth, seed, timeout=300, bfs=False, env=None,
         res = tlc(ctx, d, module, cfg, workers=1, timeout=timeout, simulate="num=%d" % n, depth=depth + 1,
                   extra=["-seed", str(seed)], env=env)
     behs = res.behaviours
+    if "TLC threw an unexpected exception" in res.out:
+        raise Infra("generation ended with an evaluation error (%s/%s):\n%s" % (module, cfg, res.out[-2500:]))
     if not behs:
         raise Infra("generation produced no behaviours (%s/%s):\n%s" % (module, cfg, res.out[-2000:]))
     seen, uniq = set(), []
